@@ -40,7 +40,17 @@ func main() {
 	zmodel := flag.String("model", "/verif/ocaml/_build/zmodel", "extracted model binary")
 	proof := flag.String("proofstatus", "", "proof status json written by ./check")
 	replay := flag.String("replay", "", "replay file")
+	gencorpus := flag.String("gencorpus", "", "write the frozen corpus into this directory (run against the pinned commit)")
 	flag.Parse()
+	if *gencorpus != "" {
+		m, err := model.Start(*zmodel, zh.BlobOracle)
+		must(err)
+		c := &ctx{Run: zh.NewRun("C09", "corpus", 0, *root), M: m, R: zh.NewRng(1), Quick: true, Known: &zh.KnownFindings{}}
+		genCorpus(c, *gencorpus)
+		m.Close()
+		zh.CleanTmp()
+		return
+	}
 	f, ok := checks[*prop]
 	if !ok {
 		var ids []string
